@@ -259,6 +259,13 @@ def run(ctx):
         ctx.violation("source-tie", {"what": "the translation of ErrorCommsManager.do_i_* / ErrorHandler._handle_if from csvpath/util/error.py is no longer proved equal to the model: theorem handle_if_src_eq (C04_error_fail_source) "
                                              "does not check against the source of this tree; the generated cases of this run found no input on which the property fails",
                                      "theorem": "handle_if_src_eq (C04_error_fail_source)", "tie": tie}, no_input=True)
+    # ... and for the aggregate verdicts: Result.is_valid, ResultsManager.is_valid, ResultsRegistrar.all_valid
+    atie = srctie.check(ctx, "aggregate")
+    if atie["status"] in ("untranslatable", "unproved") and not ctx.violations:
+        ctx.violation("source-tie", {"what": "the translation of Result.is_valid / ResultsManager.is_valid / ResultsRegistrar.all_valid from csvpath/managers/results is no longer proved equal "
+                                             "to the model: theorem rm_is_valid_src_eq / all_valid_src_eq (C04_aggregate_source) does not check against the source of this tree; "
+                                             "the generated cases of this run found no input on which the property fails",
+                                     "theorem": "rm_is_valid_src_eq / all_valid_src_eq (C04_aggregate_source)", "tie": atie}, no_input=True)
     ctx.coverage.update({
         "fail_all_groups": len(fa_jobs), "sticky_fail_groups": len(fb_jobs), "evaluations": len(jobs) + len(ejobs) + len(gjobs) + len(fa_jobs) + len(fb_jobs),
         "distinct_nontrivial": len({repr(j[:4]) for j, o in zip(jobs, res) if not o["exc"] and o.get("valid") is False}) + sum(1 for k, gi in enumerate(aidx) if not gres[gi]["runs"][0]["rm_is_valid"]),
@@ -273,6 +280,7 @@ def run(ctx):
         "correspondence": f"fragment model == implementation on {len(jobs) - len(agree_bad)}/{len(jobs)} runs; aggregate model == implementation on {len(aidx) - len(abad['c04a_agree'])}/{len(aidx)} groups",
     })
     ctx.coverage["source_tie"] = {"status": tie["status"], "detail": tie["detail"][:400]}
+    ctx.coverage["source_tie_aggregate"] = {"status": atie["status"], "detail": atie["detail"][:400]}
 
 
 def replay(ctx, payload):
